@@ -145,6 +145,11 @@ func cmdCheck(args []string) {
 	fs := flag.NewFlagSet("check", flag.ExitOnError)
 	tier := fs.String("tier", "", "quick|thorough")
 	var props []string
+	for i, a := range args {
+		if a == "--replay" && i+1 < len(args) {
+			os.Exit(cmdReplay(args[i+1]))
+		}
+	}
 	// allow "check C10 --tier quick"
 	var rest []string
 	for _, a := range args {
